@@ -155,6 +155,12 @@ func (e *Expression) Add(res fhir.Resource, name string, value fhir.Base, option
 		}
 	}
 
+	if field.Kind() != protoreflect.MessageKind {
+		// e.g. the 'value' of a primitive element: not an element that a FHIR
+		// value can be added to
+		return fmt.Errorf("%w: field '%v' does not hold an element", ErrNotPatchable, name)
+	}
+
 	if !field.IsList() && ref.Has(field) {
 		return fmt.Errorf("%w: unable to add value to populated scalar field '%v' in %v resource", ErrNotPatchable, name, resource.TypeOf(res))
 	}
@@ -722,6 +728,8 @@ func intValueFromInt(msg protoreflect.Message, val intable) (fhir.Base, error) {
 			}
 			intValue = protoreflect.ValueOfUint32(uint32(val.GetValue()))
 		default:
+			// not an integer-valued element (e.g. a string): nothing to normalize
+			return nil, nil
 		}
 		container.Set(valueField, intValue)
 		return container.Interface(), nil
